@@ -344,6 +344,19 @@ def check(ctx):
                 it = lv.text(gen.generators[0].iter)
                 names_ = any(isinstance(x_, ast.Attribute) and x_.attr == 'name' for x_ in ast.walk(gen.elt))
                 ok = it in ('self.location[::-1]', 'reversed(self.location)', 'list(reversed(self.location))') and names_
+    # evaluation first (sa/evalexpr.py): location lists of one to four named elements, innermost first, one of them without a name
+    from .. import evalexpr as _ev2
+    try:
+        ev_ok = True
+        n_ev = 0
+        for names_ in (['c', 'b', 'A'], ['x'], ['leaf', '', 'mid', 'Top'], ['b', 'A'], []):
+            r_, _e = _ev2.run_function(ls, {'self.location': [_ev2.Obj(name=nm_) for nm_ in names_]})
+            n_ev += 1
+            if r_ != '.'.join(nm_ for nm_ in reversed(names_) if nm_):
+                ev_ok = False
+        ok = ev_ok
+    except (_ev2.Unsupported, _ev2.Raised, _ev2.PyRaise):
+        pass
     ctx.instance('C12.R2', 'location_str joins reversed names with "."', 'ok' if ok else 'VIOLATION', node=ls, file=INIT)
     if not ok:
         ctx.violation('C12.R2', INIT, ls, Model.qual(ls), 'location_str must join the names of self.location in reverse order (outermost first) with "."', stmt='location_str')
@@ -561,6 +574,16 @@ def check(ctx):
                         ok = all(any(c_[1] and c_[0].startswith('isinstance(%s, ' % ktxt) for c_ in conds_) or
                                  any('sys.version_info' in c_[0] and not c_[1] for c_ in conds_ if False) for _p, conds_ in reach3)
                         how = 'an isinstance test of the key holds on every path' if ok else ''
+                if not ok:
+                    # a template method may run the type test in a sibling step before this one: an isinstance test of the same part of the value in another method of
+                    # the class (or its bases in this module) leaves the question open rather than answered
+                    sib = [g_ for k_ in c3.mro() if k_.mod is tcm3 for g_ in k_.methods.values() if g_ is not f3
+                           and any(isinstance(x_, ast.Call) and isinstance(x_.func, ast.Name) and x_.func.id == 'isinstance' and x_.args and ast.unparse(x_.args[0]) == ktxt
+                                   for x_ in walk_no_nested(g_))]
+                    if sib:
+                        ctx.instance('C12.R3', '%s key %s (may be unhashable)' % (Model.qual(f3), ktxt[:50]), 'undecided', 'the type test is in %s' % Model.qual(sib[0]), nontrivial=False,
+                                     node=n, file=tcm3.rel)
+                        continue
                 ctx.instance('C12.R3', '%s key %s (may be unhashable)' % (Model.qual(f3), ktxt[:50]), how if ok else 'VIOLATION', node=n, file=tcm3.rel)
                 if not ok:
                     ctx.violation('C12.R3', tcm3.rel, n, Model.qual(f3),
